@@ -6,6 +6,10 @@ H.append({"name":"H_zip","tiers":Q,"preemptions":1,"bounds":"zip: 3 tree shapes 
   "param_sets":[{"shape":s,"workers":w,"policy":p,"copybuf":2,"numcpu":3} for s in (0,1,2) for w in (1,2,3,-1) for p in (0,1)]})
 H.append({"name":"H_resume","tiers":Q,"preemptions":1,"novalidate":True,"bounds":"resumable extraction interrupted after each of the first 4 reported entries, 1..2 workers, <=1 preemption, 2 policies",
   "param_sets":[{"shape":s,"workers":w,"k":k,"policy":p,"copybuf":2,"numcpu":3} for s in (0,1) for w in (1,2) for k in (1,2,3,4) for p in (0,1)]})
+H.append({"name":"H_resume","tiers":Q,"preemptions":1,"novalidate":True,"bounds":"tree with a symlink extracted before its target (behind a big file) and a dangling symlink; interrupted after each of the first 3 reported entries, 1..2 workers, <=1 preemption, 2 policies",
+  "param_sets":[{"shape":3,"workers":w,"k":k,"policy":p,"copybuf":2,"numcpu":3} for w in (1,2) for k in (1,2,3) for p in (0,1)]})
+H.append({"name":"H_resume","tiers":Q,"preemptions":-1,"novalidate":True,"bounds":"crash at ANY instant: the disk snapshot is taken right before the n-th visible operation (channel/sync/file-system call of any goroutine) of the extraction, n a choice over 1..160 (partially written files, entries created but not yet recorded in the resume file); shapes 0 and 3, 1..2 workers, canonical schedule, 2 policies",
+  "param_sets":[{"shape":s,"workers":w,"instants":160,"policy":p,"copybuf":2,"numcpu":3} for s in (0,3) for w in (1,2) for p in (0,1)]})
 H.append({"name":"H_zip","tiers":Q,"preemptions":-1,"novalidate":True,"bounds":"SMT predictive race query over the event trace of the canonical run (shared-memory accesses + channel/mutex/fork/WaitGroup skeleton): 3 tree shapes, 2-3 workers",
   "param_sets":[{"shape":s,"workers":w,"policy":0,"copybuf":2,"numcpu":3,"race":1} for s in (0,1,2) for w in (2,3)]})
 H.append({"name":"H_resume","tiers":Q,"preemptions":-1,"novalidate":True,"bounds":"race query on the resumable extraction (resume file bookkeeping), 2 workers",
